@@ -303,6 +303,11 @@ pub struct World {
     pub trace_from_ms: Option<u64>,
 }
 
+/// the node info a node would announce right now (built by the real code)
+pub fn with_cloud_ref(c: &Cloud) -> crate::messages::NodeInfo {
+    with_cloud!(c, c => c.verif_create_node_info())
+}
+
 pub fn node_addr(i: usize, family: u8) -> SocketAddr {
     match family {
         0 => SocketAddr::new(IpAddr::V6(Ipv6Addr::new(0xfd00, 0, 0, 0, 0, 0, 0, 1 + i as u16)), 3210),
@@ -1137,6 +1142,14 @@ impl World {
             vec![self.keys[c.key].public_bytes]
         } else {
             c.trusted.iter().map(|k| self.keys[*k].public_bytes).collect()
+        }
+    }
+
+    /// was the datagram handled in this step altered in flight?
+    pub fn wire_was_tampered_in(&self, st: &Step) -> bool {
+        match st.kind {
+            StepKind::Deliver { wire, .. } => matches!(self.wire[wire].origin, Origin::Corrupted(_, _)),
+            _ => false,
         }
     }
 
